@@ -30,7 +30,7 @@ def gen_expr(rng, tag):
     """Returns token list; REC is the command except in the missing-command shape."""
     kind = rng.choice(["-exec", "-exec", "-execdir"])
     tmpl = gen_template(rng)
-    shape = rng.choice(["plain", "after-test", "negated", "in-or", "twice", "missing-command", "after-type", "unexecutable-command"])
+    shape = rng.choice(["plain", "after-test", "negated", "in-or", "twice", "missing-command", "after-type", "unexecutable-command", "relative-tool"])
     cmd = common.REC
     ex = [kind, cmd, tag] + tmpl + [";"]
     if shape == "plain":
@@ -45,6 +45,11 @@ def gen_expr(rng, tag):
         toks = ["-type", "d", "-o"] + ex + ["-printf", "T:%p\\0"]
     elif shape == "twice":
         toks = ex + [kind, cmd, tag + "b"] + gen_template(rng) + [";", "-printf", "TT:%p\\0"]
+    elif shape == "relative-tool":
+        # -execdir ./tool: the command exists in some directories only, so starting it fails with ENOENT for some entries and
+        # works for later ones — every entry is still a separate, independent run
+        kind = "-execdir"
+        toks = ["-execdir", "./tool", tag] + tmpl + [";", "-printf", "T:%p\\0", "-o", "-printf", "F:%p\\0"]
     elif shape == "unexecutable-command":
         # the command exists but cannot be run (no execute bit / a directory / garbage with the execute bit): the action is
         # false and find's own exit status stays 0, exactly as for a missing command
@@ -83,6 +88,15 @@ def worker(job):
                         if nodes[-1].kind == "d":
                             dirs_.append(pth)
                 st.inc("trees_with_non_utf8_names")
+            tag = "X%d_%d" % (k, t)
+            toks, shape, kind, tmpl = gen_expr(rng, tag)
+            tool_dirs = set()
+            if shape == "relative-tool":
+                for dn in [n.path for n in nodes if n.kind == "d"]:
+                    if rng.random() < 0.5 and all(n.path != dn + "/tool" for n in nodes):
+                        nodes.append(treegen.Node(dn + "/tool", "l", target=common.REC))
+                        tool_dirs.add(dn)
+                st.inc("relative_tool_runs")
             try:
                 treegen.build(sb, nodes)
             except OSError:
@@ -91,8 +105,14 @@ def worker(job):
             for n in nodes:
                 for c in treegen.hostile_classes(n.path.rsplit("/", 1)[-1]):
                     st.add("hostile_classes", c)
-            tag = "X%d_%d" % (k, t)
-            toks, shape, kind, tmpl = gen_expr(rng, tag)
+            # the starting point: usually r, sometimes an entry with several path components (-execdir at depth 0 must then
+            # run in its parent directory and name it ./basename)
+            root = "r"
+            cands = [n.path for n in nodes if n.path != "r" and not any(0xDC80 <= ord(ch) <= 0xDCFF for ch in n.path) and "\n" not in n.path
+                     and n.kind in ("d", "f")]
+            if cands and rng.random() < 0.3:
+                root = rng.choice(cands)
+                st.inc("multi_component_starting_points")
             if shape == "unexecutable-command":
                 bd = os.path.join(base, "verif-badcmd-%d" % t)
                 os.makedirs(bd, exist_ok=True)
@@ -108,25 +128,30 @@ def worker(job):
                 st.inc("unexecutable_command_runs")
             log = os.path.join(sb, "rec.log")
             env = common.clean_env({"VERIF_REC_LOG": log, "VERIF_REC_FN": "outcome6"})
-            rc, out, err, to = common.run_cmd([common.FIND, "r"] + toks, cwd=sb, env=env, timeout=120)
+            rc, out, err, to = common.run_cmd([common.FIND, root] + toks, cwd=sb, env=env, timeout=120)
             st.inc("evaluations")
             st.inc("shape:" + shape)
             st.inc("kind:" + kind)
             st.inc("templates_with_%d_braces" % min(3, sum(a.count("{}") for a in tmpl)))
-            rp = {"tree": [n.to_json() for n in nodes], "args": ["find", "r"] + toks}
+            rp = {"tree": [n.to_json() for n in nodes], "args": ["find", root] + toks}
             if to or rc in (101, 134, -6, -11):
                 st.violate("panic-or-hang", None, {"args": toks, "rc": rc, "stderr": err[-300:]}, rp)
                 common.force_rmtree(sb)
                 continue
             ast = refeval.Parser(toks).parse()
-            renv = refeval.Env(sb, exec_truth=missing_truth)
+            def truth(argv, e, tool_dirs=tool_dirs):
+                if argv[0] == "./tool":
+                    d_ = e.path.rsplit("/", 1)[0] if "/" in e.path else ""
+                    return d_ in tool_dirs and exec_truth(argv, e)
+                return missing_truth(argv, e)
+            renv = refeval.Env(sb, exec_truth=truth)
 
             def on_visit(e):
                 refeval.evaluate(ast, e, renv)
                 return False
             w = refwalk.Walk("P", 0, None, False, True, sb)
-            w.run("r", on_visit)
-            exp_runs = [(d, argv[1:]) for (name, d, argv, path) in renv.exec_log if argv[0] == common.REC]
+            w.run(root, on_visit)
+            exp_runs = [(d, argv[1:]) for (name, d, argv, path) in renv.exec_log if argv[0] == common.REC or (argv[0] == "./tool" and d in tool_dirs)]
             for d_, a_ in exp_runs:
                 st.inc("child_outcome:" + ["exit0", "exit0", "exit1", "exit3", "SIGKILL", "SIGTERM"][refeval.rec_chain(a_) % 6])
             got = xref.read_reclog(log)
@@ -170,7 +195,7 @@ def worker(job):
             if shape == "missing-command":
                 st.inc("missing_command_runs")
             if problems:
-                st.violate("exec-single", None, {"args": ["find", "r"] + toks, "problems": problems[:4], "stderr": err[-200:]}, rp)
+                st.violate("exec-single", None, {"args": ["find", root] + toks, "problems": problems[:4], "stderr": err[-200:]}, rp)
             if t % 13 == 0:
                 st.sample({"args": ["find", "r"] + toks, "runs": got_runs[:2]})
             common.force_rmtree(sb)
@@ -191,5 +216,5 @@ def run(ctx):
     ctx.pmap(worker, [(k, n // nw, ctx.seed) for k in range(nw)])
     for key in ("kind:-exec", "kind:-execdir", "missing_command_runs", "templates_with_0_braces", "templates_with_3_braces", "shape:negated", "child_outcome:SIGKILL",
                 "child_outcome:SIGTERM", "child_outcome:exit3", "child_outcome:exit0", "trees_with_non_utf8_names",
-                "unexecutable_command_runs"):
+                "unexecutable_command_runs", "relative_tool_runs", "multi_component_starting_points"):
         ctx.require(key, 3)
